@@ -351,6 +351,11 @@ func TestVerifC16(t *testing.T) {
 	defer rep.Close()
 	seed := verifrep.Seed()
 	rng := rand.New(rand.NewSource(seed))
+	// a third of the runs start as a JSON-mode node (-pre1.0_protobuf=false) that is switched to
+	// protobuf at its first restart: its snapshot is then read by the legacy decoder
+	jsonFirst := seed%3 == 0
+	verifStoreProto = !jsonFirst
+	defer func() { verifStoreProto = true }()
 	n, c := mustNode(rep, "c16node")
 	if n == nil {
 		return
@@ -551,6 +556,10 @@ func TestVerifC16(t *testing.T) {
 				rep.Note("snapshot: " + err.Error())
 			}
 			n.stop()
+			if jsonFirst && !verifStoreProto {
+				verifStoreProto = true
+				rep.Obs("restart.upgrade-json-to-protobuf", 1)
+			}
 			var err error
 			n, err = startNode(n.dir, true)
 			if err != nil {
@@ -558,6 +567,13 @@ func TestVerifC16(t *testing.T) {
 				return
 			}
 			c = newClient(n.base)
+			// the expiration is also what the node compacts its log with: a replica that restarted
+			// uses the configured one like every other replica
+			if rev > 0 {
+				if got, want := n.fsm.sessionExpiration(), time.Duration(ircServer.VerifView().Config.SessionExpiration); got != want {
+					viol("restart-changed-config:expiration-in-force", fmt.Sprintf("after snapshot+restart the node compacts with a session expiration of %v, the configuration in force says %v", got, want))
+				}
+			}
 			_, body, grev := c.getConfig(n.password)
 			a, _ := config.FromString(bodyBefore)
 			b, _ := config.FromString(body)
